@@ -37,6 +37,10 @@ pub struct Sc {
     pub pendings: Vec<usize>,
     pub corr: Corr,
     pub ask_unknown: bool,
+    /// spelling of the signed target name: 0 plain, 1 `x/../<name>`, 2 `./<name>`, 3 a `..` deeper
+    /// inside; the file the client has to fetch is named after the resolved name in every case
+    #[serde(default)]
+    pub name_style: u8,
 }
 
 pub struct C06;
@@ -51,7 +55,7 @@ impl Check for C06 {
         "C06"
     }
     fn rule(&self) -> String {
-        "seeded: target size (boundary set or random 0..64KiB), top-level or delegated, consistent snapshot on/off, explicit chunking with Pending points, one corruption kind; non-trivial = a corruption or fault fired and the target stream was pulled to its end or to an error; distinct = distinct canonical trace".into()
+        "seeded: target size (boundary set or random 0..64KiB), top-level or delegated, signed under a plain name or one that needs resolution (x/../n, ./n, inner ..), consistent snapshot on/off, explicit chunking with Pending points, one corruption kind; non-trivial = a corruption or fault fired and the target stream was pulled to its end or to an error; distinct = distinct canonical trace".into()
     }
     fn assumptions(&self) -> Vec<String> {
         vec![
@@ -137,6 +141,7 @@ impl Check for C06 {
             pendings,
             corr,
             ask_unknown: r.chance(1, 12),
+            name_style: if r.chance(1, 3) { 1 + r.below(3) as u8 } else { 0 },
         }
     }
 
@@ -153,6 +158,9 @@ impl Check for C06 {
         }
         if sc.consistent {
             v.push(Sc { consistent: false, ..sc.clone() });
+        }
+        if sc.name_style % 4 != 0 {
+            v.push(Sc { name_style: 0, ..sc.clone() });
         }
         for s in [0usize, 1, 2, 8, 64, sc.size / 2] {
             if s < sc.size {
@@ -190,7 +198,16 @@ impl Check for C06 {
 
     fn run(&self, sc: &Sc) -> Outcome {
         let mut o = Outcome::new();
-        let name = if sc.delegated { "d/file.bin" } else { "file.bin" };
+        let resolved = if sc.delegated { "d/file.bin" } else { "file.bin" };
+        let name: &str = match (sc.name_style % 4, sc.delegated) {
+            (0, _) => resolved,
+            (1, false) => "x/../file.bin",
+            (1, true) => "x/../d/file.bin",
+            (2, false) => "./file.bin",
+            (2, true) => "./d/file.bin",
+            (_, false) => "a/b/../../file.bin",
+            (_, true) => "d/sub/../file.bin",
+        };
         let body = content(sc.content_seed, sc.size);
         let mut other = content(sc.content_seed ^ 0x55, sc.size + 3);
         if other.is_empty() {
@@ -206,7 +223,7 @@ impl Check for C06 {
             spec.add_target(name, &body);
         }
         let built = world::build(&spec);
-        let expect_rel = world::target_file_name(sc.consistent, name, &body);
+        let expect_rel = world::target_file_name(sc.consistent, resolved, &body);
 
         // what the adversary serves for the target
         let mut served: Vec<u8> = body.clone();
@@ -303,9 +320,10 @@ impl Check for C06 {
         let root_bytes = built.root.bytes();
         let ask = if sc.ask_unknown { if sc.delegated { "d/nope.bin" } else { "nope.bin" } } else { name };
         o.ev(format!(
-            "cfg consistent={} delegated={} size={} corr={:?} chunks={} ask={}",
+            "cfg consistent={} delegated={} name_style={} size={} corr={:?} chunks={} ask={}",
             sc.consistent,
             sc.delegated,
+            sc.name_style % 4,
             sc.size,
             sc.corr,
             sc.chunks.len(),
